@@ -107,6 +107,7 @@ fn main() {
         "C12" => props::c12::run(tier, seed, replay.as_deref()),
         "C13" => props::c13::run(tier, seed, replay.as_deref()),
         "C14" => props::c14::run(tier, seed, replay.as_deref()),
+        "C18" => props::c18::run(tier, seed, replay.as_deref()),
         "C17" => props::c17::run(tier, seed, replay.as_deref()),
         "C16" => props::c16::run(tier, seed, replay.as_deref()),
         "C15" => props::c15::run(tier, seed, replay.as_deref()),
